@@ -58,6 +58,48 @@ pub trait Jetty: DualNum<<Self as Jetty>::F> + Clone + 'static {
     /// append all parts (absent parts as zeros) and the presence flag of every optional part met
     fn flatten(&self, shape: &Shape, out: &mut Vec<f64>, presence: &mut Vec<bool>);
     const IS_F32: bool;
+    // operator forms that the generic interface does not promise (`&a op &b`, `&a op b`, `-&a`)
+    fn rr_add(&self, o: &Self) -> Self;
+    fn rr_sub(&self, o: &Self) -> Self;
+    fn rr_mul(&self, o: &Self) -> Self;
+    fn rr_div(&self, o: &Self) -> Self;
+    fn rv_add(&self, o: Self) -> Self;
+    fn rv_sub(&self, o: Self) -> Self;
+    fn rv_mul(&self, o: Self) -> Self;
+    fn rv_div(&self, o: Self) -> Self;
+    fn r_neg(&self) -> Self;
+}
+
+macro_rules! ref_ops {
+    () => {
+        fn rr_add(&self, o: &Self) -> Self {
+            self + o
+        }
+        fn rr_sub(&self, o: &Self) -> Self {
+            self - o
+        }
+        fn rr_mul(&self, o: &Self) -> Self {
+            self * o
+        }
+        fn rr_div(&self, o: &Self) -> Self {
+            self / o
+        }
+        fn rv_add(&self, o: Self) -> Self {
+            self + o
+        }
+        fn rv_sub(&self, o: Self) -> Self {
+            self - o
+        }
+        fn rv_mul(&self, o: Self) -> Self {
+            self * o
+        }
+        fn rv_div(&self, o: Self) -> Self {
+            self / o
+        }
+        fn r_neg(&self) -> Self {
+            -self
+        }
+    };
 }
 
 pub fn build_all<T: Jetty>(shape: &Shape, vals: &[f64]) -> T {
@@ -97,6 +139,7 @@ macro_rules! leaf {
         impl Jetty for $f {
             type F = $f;
             const IS_F32: bool = $is32;
+            ref_ops!();
             fn shape(_d: (usize, usize)) -> Shape {
                 Shape::Leaf
             }
@@ -126,6 +169,7 @@ macro_rules! scalar_level {
         impl<T: Jetty> Jetty for $ty<T, T::F> {
             type F = T::F;
             const IS_F32: bool = T::IS_F32;
+            ref_ops!();
             fn shape(d: (usize, usize)) -> Shape {
                 Shape::level($kind, T::shape(d))
             }
@@ -209,6 +253,7 @@ where
 {
     type F = T::F;
     const IS_F32: bool = T::IS_F32;
+    ref_ops!();
     fn shape(d: (usize, usize)) -> Shape {
         let n = D::try_to_usize().unwrap_or(d.0);
         Shape::level(Kind::DualVec(n), T::shape(d))
@@ -240,6 +285,7 @@ where
 {
     type F = T::F;
     const IS_F32: bool = T::IS_F32;
+    ref_ops!();
     fn shape(d: (usize, usize)) -> Shape {
         let n = D::try_to_usize().unwrap_or(d.0);
         Shape::level(Kind::Dual2Vec(n), T::shape(d))
@@ -279,6 +325,7 @@ where
 {
     type F = T::F;
     const IS_F32: bool = T::IS_F32;
+    ref_ops!();
     fn shape(d: (usize, usize)) -> Shape {
         let m = M::try_to_usize().unwrap_or(d.0);
         let n = N::try_to_usize().unwrap_or(d.1);
